@@ -39,6 +39,7 @@ func c15(c *Ctx) {
 	c15add(c)
 	c15remove(c)
 	c15get(c)
+	c15users(c)
 }
 
 // hashDerivation renders the argument of a hashFunc call: want []byte(nodeRepr + strconv.Itoa(i)).
@@ -442,5 +443,4 @@ func c15get(c *Ctx) {
 		})
 	}
 	c.R.Min(rule, 2, "Get, search predicate")
-
 }
